@@ -51,7 +51,18 @@ STEPS = ["none", "connect", "send_headers", "send_body", "read0", "read1", "read
 
 BODY = b"0123456789"
 
-RESP_KINDS = ["cl_keepalive", "cl_close", "redirect302", "retry503", "chunked", "close_delimited", "h204"]
+RESP_KINDS = ["cl_keepalive", "cl_close", "redirect302", "retry503", "chunked", "close_delimited", "h204", "redirect302_gzip6",
+              "retry503_gzip6"]
+
+
+def _gz6(b):
+    import gzip
+    for _ in range(6):
+        b = gzip.compress(b, mtime=0)
+    return b
+
+
+GZ6 = _gz6(BODY)            # a body under six stacked codings: whatever a decoder makes of it, the slot comes back
 
 
 def wire(kind: int):
@@ -68,6 +79,11 @@ def wire(kind: int):
         return [b"HTTP/1.1 200 OK\r\n", b"Transfer-Encoding: chunked\r\n\r\n", b"4\r\n0123\r\n", b"6\r\n456789\r\n0\r\n\r\n"]
     if kind == 5:
         return [b"HTTP/1.1 200 OK\r\n", b"X: y\r\n\r\n", BODY[:4], BODY[4:]]
+    if kind in (7, 8):
+        enc = b"Content-Encoding: gzip, gzip, gzip, gzip, gzip, gzip\r\nContent-Length: %d\r\n\r\n" % len(GZ6)
+        if kind == 7:
+            return [b"HTTP/1.1 302 Found\r\n", b"Location: /next\r\n" + enc, GZ6[:40], GZ6[40:]]
+        return [b"HTTP/1.1 503 Unavailable\r\n", b"Retry-After: 0\r\n" + enc, GZ6[:40], GZ6[40:]]
     return [b"HTTP/1.1 204 No Content\r\n", b"X: y\r\n\r\n", b"", b""]
 
 
@@ -622,9 +638,13 @@ def JOBS(tier):
     swallowed = (F["epipe"], F["reset"], F["eprototype"])
     # (B1) no fault: every response kind x every disposal, small pre-states
     for rk in allk:
+        if rk in (7, 8):
+            # stacked codings only matter where urlopen itself drains the response (followed 302 / retried 503)
+            job(0, -1, -1, [rk], [0, 4], rkinds=(2,), relmodes=(0, 2), ks=(3,))
+            continue
         for pre in (((0, 1, 2),) if quick else ((0, 1), (2,))):
             job(0, -1, -1, [rk], alld, ks=(0, 3) if quick else (0, 3, 10, 11), relmodes=pre,
-                rkinds=(2,) if rk in (2, 3) else (1,))
+                rkinds=(2,) if rk in (2, 3, 7, 8) else (1,))
     # (B2) connect / send faults: every exception kind; swallowed ones (EPIPE...) go on to a response
     connect_kinds = [F[n] for n in ("timeout", "refused", "gaierror", "sslerror", "interrupt", "eio")]
     send_kinds = [F[n] for n in ("timeout", "epipe", "reset", "eprototype", "eio", "sslerror", "interrupt")]
